@@ -33,6 +33,7 @@ Next ==
      \/ \E k \in {"entered", "not_entered", "exited", "not_exited", "active", "not_active"} :
           \E s \in States(c) : Do(St("then", k, s, 0, 0))
      \/ \E e \in Events : \/ Do(St("then", "fired", e, 0, 0)) \/ Do(St("then", "fired", e, 7, 0))
+                         \/ Do(St("then", "fired", e, 8, 0))
                          \/ Do(St("then", "not_fired", e, 0, 0))
      \/ Do(St("then", "no_event", 0, 0, 0))
      \/ \E v \in Xs : \E k \in {"var_eq", "var_neq", "expr_holds", "expr_not_holds"} : Do(St("then", k, v, 0, 0))
